@@ -209,6 +209,7 @@ func (s *TimerQueue) tick(t time.Time) {
 	var deadline = s.convTimeUnit(t)
 	var expires = s.trigger(deadline)
 	for _, node := range expires {
+		verifYield(s, "send", node.id)
 		if node.r != nil {
 			s.C <- node.r
 		}
@@ -230,6 +231,7 @@ func (s *TimerQueue) trigger(now int64) []*timerNode {
 		}
 
 		// 如果timer需要重复执行，只修正heap，id保持不变
+		verifYield(s, "decide", node.id)
 		s.guard.Lock()
 		if node.cancelled {
 			heap.Pop(&s.timers) // its cancel request is still on the way: drop, do not deliver
